@@ -178,6 +178,7 @@ fn prepare<G: Group>(m: &Member) -> Prepared<G> {
                 seed: wit.seed(),
                 ctx: m.ctx.clone(),
                 proof,
+                force_seed: None,
             };
             let fr = SimRng::new(*fault_seed);
             for (i, f) in faults.iter().enumerate() {
@@ -220,6 +221,7 @@ fn prepare<G: Group>(m: &Member) -> Prepared<G> {
             seed: if m.st.with_seed { Some(scalar_from_seed("c16seed", m.st.seed, 0)) } else { None },
             ctx: m.ctx.clone(),
             proof,
+            force_seed: None,
         },
         elements: el,
     }
